@@ -10,6 +10,7 @@ import (
 	"math/rand"
 	"os"
 	"path/filepath"
+	"strings"
 	"sync"
 	"sync/atomic"
 	"time"
@@ -31,6 +32,7 @@ type lifeOp struct {
 type lifeInput struct {
 	InMem bool     `json:"in_mem"`
 	SameID bool    `json:"same_id,omitempty"` // every feed is started with the same FeedArguments.ID
+	Ckpt   bool    `json:"ckpt,omitempty"`    // every feed keeps a checkpoint (which it saves when it ends - if it still can)
 	Ops   []lifeOp `json:"ops"`
 }
 
@@ -179,8 +181,11 @@ func execLife(in lifeInput, scratch string) (Case, error) {
 							if op.Dump {
 								args.Backfill, args.Dump = 0, true
 							}
+							if in.Ckpt {
+								args.CheckpointPrefix = "cp"
+							}
 							e := ds.(*rosmar.Collection).StartDCPFeed(ctxBg, args, func(ev sgbucket.FeedEvent) bool {
-								if ev.Opcode == sgbucket.FeedOpMutation || ev.Opcode == sgbucket.FeedOpDeletion {
+								if (ev.Opcode == sgbucket.FeedOpMutation || ev.Opcode == sgbucket.FeedOpDeletion) && !strings.HasPrefix(string(ev.Key), "cp:") {
 									if ended(f) {
 										atomic.AddInt64(&f.late, 1)
 									}
@@ -299,7 +304,7 @@ func execLife(in lifeInput, scratch string) (Case, error) {
 }
 
 func genLife(r *rand.Rand) lifeInput {
-	in := lifeInput{InMem: r.Intn(2) == 0, SameID: r.Intn(2) == 0}
+	in := lifeInput{InMem: r.Intn(2) == 0, SameID: r.Intn(2) == 0, Ckpt: r.Intn(2) == 0}
 	colls := []string{"_default._default"}
 	open := map[int]bool{}
 	add := func(o lifeOp) { in.Ops = append(in.Ops, o) }
